@@ -139,7 +139,8 @@ int vs_eq_lit(vstr *a, const char *lit) { u64 n = vs_strlen((const u8 *)lit); re
 /* representation invariant of a live string */
 int vs_wf(vstr *s) { return SP(s) != 0 && SLEN(s) <= vs_capacity(s) && SP(s)[SLEN(s)] == 0; }
 
-/* ---- models ---- */
+/* ---- models ---- (absent from the native build against the real g++ objects) */
+#ifndef VERIF_NATIVE_REAL
 #ifdef DECL__ZNSt7__cxx1112basic_stringIcSt11char_traitsIcESaIcEEC2Ev
 void _ZNSt7__cxx1112basic_stringIcSt11char_traitsIcESaIcEEC2Ev(vstr *s) { vs_init_empty(s); }
 #endif
@@ -415,4 +416,46 @@ u64 _ZNKSt7__cxx1112basic_stringIcSt11char_traitsIcESaIcEE13find_first_ofEPKcm(v
   return NPOS;
 }
 #endif
+
+/* ---- std::vector<std::string>::push_back(string&&) contract model (used when a harness cuts the real
+   _M_realloc_insert growth path): one block of VERIF_VEC_CAP elements allocated on first use, the moved
+   string appended at end().  More than VERIF_VEC_CAP elements is a BOUND failure, never silently cut. */
+struct vs_vec { vstr *b, *e, *c; }; /* _Vector_impl_data: begin, end, end of storage */
+#if defined(DECL__ZNSt6vectorINSt7__cxx1112basic_stringIcSt11char_traitsIcESaIcEEESaIS5_EE9push_backEOS5_)
+#ifndef VERIF_VEC_CAP
+#define VERIF_VEC_CAP 4
+#endif
+void _ZNSt6vectorINSt7__cxx1112basic_stringIcSt11char_traitsIcESaIcEEESaIS5_EE9push_backEOS5_(void *v_, vstr *o)
+{
+  struct vs_vec *v = v_;
+  vstr **b = &v->b, **e = &v->e, **c = &v->c;
+  if (*b == 0) {
+    vstr *blk = malloc(sizeof(vstr) * VERIF_VEC_CAP);
+    __CPROVER_assume(blk != 0);
+    *b = blk; *e = blk; *c = blk + VERIF_VEC_CAP;
+  }
+  __CPROVER_assert(*e != *c, "BOUND: vector<string> model capacity (VERIF_VEC_CAP) too small");
+  __CPROVER_assume(*e != *c);
+  vstr *s = *e;
+  if (vs_is_local(o)) { SP(s) = SLOCAL(s); memcpy(SLOCAL(s), SLOCAL(o), 16); }
+  else { SP(s) = SP(o); SCAP(s) = SCAP(o); }
+  SLEN(s) = SLEN(o);
+  vs_init_empty(o);
+  *e = s + 1;
+}
+#endif
+
+/* vector<string>::operator[] contract (libstdc++ __glibcxx_requires_subscript): index < size() */
+#if defined(DECL__ZNSt6vectorINSt7__cxx1112basic_stringIcSt11char_traitsIcESaIcEEESaIS5_EEixEm)
+vstr *_ZNSt6vectorINSt7__cxx1112basic_stringIcSt11char_traitsIcESaIcEEESaIS5_EEixEm(void *v_, u64 i)
+{
+  struct vs_vec *v = v_;
+  vstr *b = v->b, *e = v->e;
+  u64 n = b ? (u64)(e - b) : 0; /* an empty vector has null begin/end */
+  __CPROVER_assert(i < n, "VECTOR: operator[] index < size() (reads past the end of a vector<string>)");
+  __CPROVER_assume(i < n);
+  return b + i;
+}
+#endif
+#endif /* !VERIF_NATIVE_REAL */
 #endif /* HAVE basic_string */
